@@ -5,158 +5,138 @@ package ppp
 // C05 correspondence harness: drives the real FSM of pkg/ppp/fsm.go (with a mock option handler,
 // or inside real LCP / IPCP / IPv6CP instances) through one whole history per case line and prints
 // the projected observables after every event.  See /verif/ocaml/C05_run.ml for the line format.
+//
+// Kind "conc" is the forced-overlap part: after a sequential prefix, event A runs on one goroutine
+// with a gate inside one of its callbacks (LayerUp/LayerDown/LayerStarted/LayerFinished/Send); while
+// A is parked there, event B is injected from a second goroutine.  Events are atomic (the model's
+// [step]) iff B cannot run before A has finished, i.e. iff the recorded stream and the final state
+// are those of the sequential history A;B.  Two monitors are evaluated on the recorded stream:
+// tlu/tld alternate, and an acknowledged Terminate-Request leaves Opened.
 
 import (
 	"bufio"
-	"bytes"
+	"encoding/hex"
 	"fmt"
 	"net"
 	"os"
 	"strconv"
 	"strings"
+	"sync"
 	"testing"
 	"time"
 )
 
 var (
-	vf5Req  = []Option{{Type: 1, Data: []byte{0x05, 0xd4}}}
-	vf5Ack  = []Option{{Type: 1, Data: []byte{0x05, 0xd4}}, {Type: 5, Data: []byte{1, 2, 3, 4}}}
-	vf5PAck = []Option{{Type: 5, Data: []byte{1, 2, 3, 4}}}
-	vf5Nak  = []Option{{Type: 1, Data: []byte{0x05, 0xdc}}}
-	vf5Rej  = []Option{{Type: 7, Data: []byte{}}}
+	vf5Req = []Option{{Type: 1, Data: []byte{0x05, 0xd4}}}
+	vf5Nak = []Option{{Type: 1, Data: []byte{0x05, 0xdc}}}
+	vf5Rej = []Option{{Type: 7, Data: []byte{}}}
 )
 
-// mock option handler: the class of the answer to a Configure-Request is chosen by the case
-type vf5Mock struct{ cls string }
+// mock option handler: stateless; the class of the answer to a Configure-Request is encoded in the
+// type of the first option of the request (0x21 nak, 0x22 reject, 0x23 both, anything else good)
+type vf5Mock struct{}
 
 func (m *vf5Mock) BuildConfReq() []Option { return vf5Req }
 func (m *vf5Mock) ProcessConfReq(opts []Option) (ack, nak, rej []Option) {
-	switch m.cls {
-	case "g":
-		return opts, nil, nil
-	case "n":
-		return vf5PAck, vf5Nak, nil
-	case "r":
-		return vf5PAck, nil, vf5Rej
-	default: // "b"
-		return vf5PAck, vf5Nak, vf5Rej
+	if len(opts) > 0 {
+		switch opts[0].Type {
+		case 0x21:
+			return opts[1:], vf5Nak, nil
+		case 0x22:
+			return opts[1:], nil, vf5Rej
+		case 0x23:
+			return opts[1:], vf5Nak, vf5Rej
+		}
 	}
+	return opts, nil, nil
 }
 func (m *vf5Mock) ProcessConfAck(opts []Option) {}
 func (m *vf5Mock) ProcessConfNak(opts []Option) {}
 func (m *vf5Mock) ProcessConfRej(opts []Option) {}
 
-// recorder around a real handler: remembers how the last Configure-Request was classified
-type vf5Rec struct {
-	inner  OptionHandler
-	called bool
-	cls    string
+func vf5Hex(b []byte) string {
+	if len(b) == 0 {
+		return "-"
+	}
+	return hex.EncodeToString(b)
 }
 
+// everything the FSM does to the outside, in order
+type vf5Stream struct {
+	mu    sync.Mutex
+	acts  []string
+	calls []string
+	cls   string // class of the last ProcessConfReq answer
+	// gate
+	gate    string // "" = none; u d n s a
+	parked  chan struct{}
+	release chan struct{}
+}
+
+func (s *vf5Stream) add(a string, isSend bool) {
+	s.mu.Lock()
+	s.acts = append(s.acts, a)
+	g := s.gate
+	hit := false
+	switch g {
+	case "a":
+		hit = true
+	case "s":
+		hit = isSend
+	case "n":
+		hit = !isSend
+	case "u":
+		hit = a == "tlu"
+	case "d":
+		hit = a == "tld"
+	}
+	if hit {
+		s.gate = ""
+	}
+	s.mu.Unlock()
+	if hit {
+		close(s.parked)
+		<-s.release
+	}
+}
+
+// recorder around the handler: logs every call that can change option state
+type vf5Rec struct {
+	inner OptionHandler
+	s     *vf5Stream
+}
+
+func (r *vf5Rec) log(k string, opts []Option) {
+	r.s.mu.Lock()
+	r.s.calls = append(r.s.calls, k+vf5Hex(SerializeOptions(opts)))
+	r.s.mu.Unlock()
+}
 func (r *vf5Rec) BuildConfReq() []Option { return r.inner.BuildConfReq() }
 func (r *vf5Rec) ProcessConfReq(opts []Option) (ack, nak, rej []Option) {
+	r.log("R", opts)
 	ack, nak, rej = r.inner.ProcessConfReq(opts)
-	r.called = true
+	c := "n"
 	switch {
 	case len(nak) == 0 && len(rej) == 0:
-		r.cls = "g"
+		c = "g"
 	case len(nak) > 0 && len(rej) > 0:
-		r.cls = "b"
+		c = "b"
 	case len(rej) > 0:
-		r.cls = "r"
-	default:
-		r.cls = "n"
+		c = "r"
 	}
+	r.s.mu.Lock()
+	r.s.cls = c
+	r.s.mu.Unlock()
 	return
 }
-func (r *vf5Rec) ProcessConfAck(opts []Option) { r.inner.ProcessConfAck(opts) }
-func (r *vf5Rec) ProcessConfNak(opts []Option) { r.inner.ProcessConfNak(opts) }
-func (r *vf5Rec) ProcessConfRej(opts []Option) { r.inner.ProcessConfRej(opts) }
-
-// Configure-Request payloads with a known classification for the real handlers
-func vf5RealReq(kind, cls string) []byte {
-	if cls == "m" {
-		return []byte{1, 0}
-	}
-	switch kind {
-	case "lcp":
-		switch cls {
-		case "g":
-			return []byte{1, 4, 0x05, 0xd4, 5, 6, 9, 9, 9, 9}
-		case "n":
-			return []byte{1, 4, 0, 32}
-		case "r":
-			return []byte{7, 2}
-		default:
-			return []byte{1, 4, 0, 32, 7, 2}
-		}
-	case "ipcp":
-		switch cls {
-		case "g":
-			return []byte{3, 6, 10, 0, 0, 2}
-		case "n":
-			return []byte{3, 6, 10, 0, 0, 9}
-		case "r":
-			return []byte{2, 6, 0, 0x2d, 15, 1}
-		default:
-			return []byte{3, 6, 10, 0, 0, 9, 2, 6, 0, 0x2d, 15, 1}
-		}
-	default: // ipv6cp
-		switch cls {
-		case "g":
-			return []byte{1, 10, 2, 0, 0, 0, 0, 0, 0, 7}
-		case "n":
-			return []byte{1, 10, 0, 0, 0, 0, 0, 0, 0, 0}
-		case "r":
-			return []byte{2, 2}
-		default:
-			return []byte{1, 10, 0, 0, 0, 0, 0, 0, 0, 0, 2, 2}
-		}
-	}
-}
+func (r *vf5Rec) ProcessConfAck(opts []Option) { r.log("A", opts); r.inner.ProcessConfAck(opts) }
+func (r *vf5Rec) ProcessConfNak(opts []Option) { r.log("N", opts); r.inner.ProcessConfNak(opts) }
+func (r *vf5Rec) ProcessConfRej(opts []Option) { r.log("J", opts); r.inner.ProcessConfRej(opts) }
 
 type vf5Run struct {
 	f    *FSM
-	mock *vf5Mock
-	rec  *vf5Rec
-	kind string
-	acts []string
-	// what the current event would justify as payloads
-	inCode, inID uint8
-	inData       []byte
-}
-
-func (r *vf5Run) tag(code uint8, data []byte) string {
-	switch code {
-	case TermReq, TermAck:
-		if len(data) == 0 {
-			return "-"
-		}
-	case CodeRej:
-		want := append([]byte{r.inCode, r.inID, byte((4 + len(r.inData)) >> 8), byte(4 + len(r.inData))}, r.inData...)
-		if bytes.Equal(data, want) {
-			return "P"
-		}
-	case EchoRep:
-		if bytes.Equal(data, r.inData) {
-			return "E"
-		}
-	case ConfReq, ConfAck, ConfNak, ConfRej:
-		if r.mock == nil {
-			return "*"
-		}
-		switch {
-		case code == ConfReq && bytes.Equal(data, SerializeOptions(vf5Req)):
-			return "Q"
-		case code == ConfAck && r.mock.cls == "g" && bytes.Equal(data, r.inData):
-			return "A"
-		case code == ConfNak && bytes.Equal(data, SerializeOptions(vf5Nak)):
-			return "N"
-		case code == ConfRej && bytes.Equal(data, SerializeOptions(vf5Rej)):
-			return "R"
-		}
-	}
-	return "?" + fmt.Sprintf("%x", data)
+	mock bool
+	s    *vf5Stream
 }
 
 func (r *vf5Run) callbacks() Callbacks {
@@ -168,13 +148,144 @@ func (r *vf5Run) callbacks() Callbacks {
 			if !ok {
 				n = "send" + strconv.Itoa(int(code))
 			}
-			r.acts = append(r.acts, fmt.Sprintf("%s.%d.%s", n, id, r.tag(code, data)))
+			tag := vf5Hex(data)
+			switch code {
+			case ConfAck, ConfNak, ConfRej:
+				if !r.mock {
+					tag = "*"
+				}
+			case CodeRej:
+				// rejected packet: code-id-declared length, and the declared length must be the real one
+				tag = "?" + tag
+				if len(data) >= 4 && int(data[2])<<8|int(data[3]) == len(data) {
+					tag = fmt.Sprintf("%d-%d-%d", data[0], data[1], len(data)-4)
+				}
+			}
+			r.s.add(fmt.Sprintf("%s.%d.%s", n, id, tag), true)
 		},
-		LayerUp:       func() { r.acts = append(r.acts, "tlu") },
-		LayerDown:     func() { r.acts = append(r.acts, "tld") },
-		LayerStarted:  func() { r.acts = append(r.acts, "tls") },
-		LayerFinished: func() { r.acts = append(r.acts, "tlf") },
+		LayerUp:       func() { r.s.add("tlu", false) },
+		LayerDown:     func() { r.s.add("tld", false) },
+		LayerStarted:  func() { r.s.add("tls", false) },
+		LayerFinished: func() { r.s.add("tlf", false) },
 	}
+}
+
+type vf5Op struct {
+	kind  string // U D O C T I
+	code  uint8
+	id    uint8
+	cls   string
+	data  []byte
+	isReq bool
+}
+
+// parse an op token; identifiers c/s/p are resolved against lastReqID now
+func (r *vf5Run) resolve(op string) (vf5Op, bool) {
+	switch op {
+	case "U", "D", "O", "C", "T":
+		return vf5Op{kind: op}, true
+	}
+	if len(op) < 2 || op[0] != 'I' {
+		return vf5Op{}, false
+	}
+	p := strings.Split(op[1:], ".")
+	if len(p) != 4 && len(p) != 5 {
+		return vf5Op{}, false
+	}
+	code, _ := strconv.Atoi(p[0])
+	r.f.mu.Lock()
+	last := r.f.lastReqID
+	r.f.mu.Unlock()
+	var id uint8
+	switch p[1] {
+	case "c":
+		id = last
+	case "s":
+		id = last + 1
+	case "p":
+		id = last - 1
+	default:
+		n, _ := strconv.Atoi(p[1])
+		id = uint8(n)
+	}
+	var data []byte
+	if len(p) == 5 {
+		data, _ = hex.DecodeString(p[4])
+	} else {
+		dlen, _ := strconv.Atoi(p[3])
+		data = make([]byte, dlen)
+		for i := range data {
+			data[i] = byte(0xa0 + i)
+		}
+	}
+	return vf5Op{kind: "I", code: uint8(code), id: id, cls: p[2], data: data, isReq: uint8(code) == ConfReq}, true
+}
+
+func (r *vf5Run) apply(o vf5Op) {
+	f := r.f
+	switch o.kind {
+	case "U":
+		f.Up()
+	case "D":
+		f.Down()
+	case "O":
+		f.Open()
+	case "C":
+		f.Close()
+	case "T":
+		// the pending restart timer fires: it is consumed, and its callback Timeout() runs
+		f.mu.Lock()
+		f.stopTimer()
+		f.mu.Unlock()
+		f.Timeout()
+	case "I":
+		f.Input(o.code, o.id, o.data)
+	}
+}
+
+func (r *vf5Run) obs() string {
+	f := r.f
+	st := f.State()
+	f.mu.Lock()
+	defer f.mu.Unlock()
+	armed := 0
+	if f.timer != nil {
+		armed = 1
+	}
+	return fmt.Sprintf("%d/%d/%d/%d/%d/%d", st, f.restartCount, armed, f.lastReqID, f.id, f.failCount)
+}
+
+func vf5Join(l []string) string {
+	if len(l) == 0 {
+		return "-"
+	}
+	return strings.Join(l, ",")
+}
+
+// one sequential event; returns the printed step
+func (r *vf5Run) seqStep(op string) (string, bool) {
+	o, ok := r.resolve(op)
+	if !ok {
+		return "", false
+	}
+	s := r.s
+	s.mu.Lock()
+	s.acts, s.calls, s.cls = nil, nil, ""
+	s.mu.Unlock()
+	r.apply(o)
+	s.mu.Lock()
+	acts, calls, cls := s.acts, s.calls, s.cls
+	s.mu.Unlock()
+	if o.isReq {
+		// the handler's answer class must be the one the case announces (glue self-check)
+		if o.cls == "m" && cls != "" {
+			acts = append(acts, "CLS!called")
+		}
+		if o.cls != "m" && cls != o.cls {
+			acts = append(acts, "CLS!"+cls)
+		}
+	}
+	return r.obs() + ":" + vf5Join(acts) + ":" + vf5Join(calls), true
 }
 
 func vf5Case(line string) (res string) {
@@ -187,39 +298,37 @@ func vf5Case(line string) (res string) {
 	if len(tk) < 3 {
 		return "badline"
 	}
-	r := &vf5Run{kind: tk[0]}
+	r := &vf5Run{s: &vf5Stream{}}
+	var inner OptionHandler
 	switch tk[0] {
-	case "fsm":
-		r.mock = &vf5Mock{cls: "g"}
-		r.f = NewFSM(ProtoLCP, r.callbacks(), r.mock)
+	case "fsm", "conc":
+		r.mock = true
+		inner = &vf5Mock{}
+		r.f = NewFSM(ProtoLCP, r.callbacks(), nil)
 	case "ncp":
-		r.mock = &vf5Mock{cls: "g"}
-		r.f = NewFSM(ProtoIPCP, r.callbacks(), r.mock)
+		r.mock = true
+		inner = &vf5Mock{}
+		r.f = NewFSM(ProtoIPCP, r.callbacks(), nil)
 	case "lcp":
 		l := NewLCP(r.callbacks())
 		l.SetMagic(0x01020304)
 		l.SetAuthProto(ProtoCHAP, CHAPMD5)
-		r.rec = &vf5Rec{inner: l}
-		r.f = l.FSM()
-		r.f.handler = r.rec
+		inner, r.f = l, l.FSM()
 	case "ipcp":
 		i := NewIPCP(r.callbacks())
 		i.SetAddress(net.IPv4(10, 0, 0, 1))
 		i.SetPeerAddress(net.IPv4(10, 0, 0, 2))
 		i.SetDNS(net.IPv4(9, 9, 9, 9), net.IPv4(8, 8, 8, 8))
-		r.rec = &vf5Rec{inner: i}
-		r.f = i.FSM()
-		r.f.handler = r.rec
+		inner, r.f = i, i.FSM()
 	case "ipv6cp":
 		i := NewIPv6CP(r.callbacks())
 		i.SetInterfaceID([8]byte{2, 0, 0, 0, 0, 0, 0, 1})
-		r.rec = &vf5Rec{inner: i}
-		r.f = i.FSM()
-		r.f.handler = r.rec
+		inner, r.f = i, i.FSM()
 	default:
 		return "badkind"
 	}
 	f := r.f
+	f.handler = &vf5Rec{inner: inner, s: r.s}
 	f.restartTime = 10 * time.Hour // the restart timer never fires by itself; "T" fires it
 	if tk[1] != "d" {
 		f.maxConf, _ = strconv.Atoi(tk[1])
@@ -232,100 +341,111 @@ func vf5Case(line string) (res string) {
 		f.stopTimer()
 		f.mu.Unlock()
 	}()
+	ops := tk[3:]
 	var out []string
-	for _, op := range tk[3:] {
-		r.acts = r.acts[:0]
-		switch {
-		case op == "U":
-			f.Up()
-		case op == "D":
-			f.Down()
-		case op == "O":
-			f.Open()
-		case op == "C":
-			f.Close()
-		case op == "T":
-			// the pending restart timer fires: it is consumed, and its callback Timeout() runs
-			f.mu.Lock()
-			f.stopTimer()
-			f.mu.Unlock()
-			f.Timeout()
-		case len(op) > 1 && op[0] == 'I':
-			p := strings.Split(op[1:], ".")
-			if len(p) != 4 {
-				return "badcase"
+	var pair []string
+	if tk[0] == "conc" {
+		k := -1
+		for i, o := range ops {
+			if o == "/" {
+				k = i
 			}
-			code, _ := strconv.Atoi(p[0])
-			var id uint8
-			f.mu.Lock()
-			last := f.lastReqID
-			f.mu.Unlock()
-			switch p[1] {
-			case "c":
-				id = last
-			case "s":
-				id = last + 1
-			case "p":
-				id = last - 1
-			default:
-				n, _ := strconv.Atoi(p[1])
-				id = uint8(n)
-			}
-			cls := p[2]
-			dlen, _ := strconv.Atoi(p[3])
-			var data []byte
-			switch uint8(code) {
-			case ConfReq:
-				if r.mock != nil {
-					r.mock.cls = cls
-					if cls == "m" {
-						data = []byte{1, 0}
-					} else {
-						data = SerializeOptions(vf5Ack)
-					}
-				} else {
-					data = vf5RealReq(r.kind, cls)
-					r.rec.called = false
-				}
-			case ConfAck, ConfNak, ConfRej:
-				if cls == "m" {
-					data = []byte{1, 1}
-				} else if r.mock != nil {
-					data = SerializeOptions(vf5Req)
-				}
-			default:
-				data = make([]byte, dlen)
-				for i := range data {
-					data[i] = byte(0xa0 + i)
-				}
-			}
-			r.inCode, r.inID, r.inData = uint8(code), id, data
-			f.Input(uint8(code), id, data)
-			if uint8(code) == ConfReq && r.rec != nil {
-				if cls == "m" && r.rec.called {
-					r.acts = append(r.acts, "CLS!called")
-				}
-				if cls != "m" && (!r.rec.called || r.rec.cls != cls) {
-					r.acts = append(r.acts, "CLS!"+r.rec.cls)
-				}
-			}
-		default:
+		}
+		if k < 0 || len(ops)-k != 4 {
 			return "badcase"
 		}
-		st := f.State()
-		f.mu.Lock()
-		armed := 0
-		if f.timer != nil {
-			armed = 1
+		ops, pair = ops[:k], ops[k+1:]
+	}
+	var all []string
+	for _, op := range ops {
+		s, ok := r.seqStep(op)
+		if !ok {
+			return "badcase"
 		}
-		s := fmt.Sprintf("%d/%d/%d/%d/%d/%d:", st, f.restartCount, armed, f.lastReqID, f.id, f.failCount)
-		f.mu.Unlock()
-		if len(r.acts) == 0 {
-			s += "-"
-		} else {
-			s += strings.Join(r.acts, ",")
-		}
+		r.s.mu.Lock()
+		all = append(all, r.s.acts...)
+		r.s.mu.Unlock()
 		out = append(out, s)
+	}
+	if pair != nil {
+		a, ok1 := r.resolve(pair[1])
+		b, ok2 := r.resolve(pair[2]) // both identifiers resolved before A starts
+		if !ok1 || !ok2 {
+			return "badcase"
+		}
+		s := r.s
+		s.mu.Lock()
+		s.acts, s.calls, s.cls = nil, nil, ""
+		s.gate, s.parked, s.release = pair[0], make(chan struct{}), make(chan struct{})
+		parked, release := s.parked, s.release
+		s.mu.Unlock()
+		doneA, doneB := make(chan struct{}), make(chan struct{})
+		ov := "ov=0"
+		go func() { defer close(doneA); r.apply(a) }()
+		select {
+		case <-parked:
+			// A is inside a callback: inject B from a second goroutine
+			ov = "ov=1"
+			go func() { defer close(doneB); r.apply(b) }()
+			select {
+			case <-doneB: // B ran to completion inside A's callback
+			case <-time.After(3 * time.Millisecond): // B is waiting for A
+			}
+			close(release)
+		case <-doneA:
+			s.mu.Lock()
+			s.gate = ""
+			s.mu.Unlock()
+			go func() { defer close(doneB); r.apply(b) }()
+		case <-time.After(10 * time.Second):
+			return "hang"
+		}
+		for _, ch := range []chan struct{}{doneA, doneB} {
+			select {
+			case <-ch:
+			case <-time.After(10 * time.Second):
+				return "hang"
+			}
+		}
+		s.mu.Lock()
+		acts, calls := s.acts, s.calls
+		s.mu.Unlock()
+		out = append(out, r.obs()+":"+vf5Join(acts)+":"+vf5Join(calls))
+		all = append(all, acts...)
+		// monitor 1: tlu / tld alternate over the whole recorded stream
+		alt, up := "alt=ok", false
+		for _, x := range all {
+			if x == "tlu" {
+				if up {
+					alt = "alt=BAD"
+				}
+				up = true
+			}
+			if x == "tld" {
+				if !up {
+					alt = "alt=BAD"
+				}
+				up = false
+			}
+		}
+		// monitor 2: a Terminate-Request that was acknowledged (sta) and not followed by a new tlu
+		// must not leave the automaton in Opened
+		term := "term=ok"
+		if (a.kind == "I" && a.code == TermReq) || (b.kind == "I" && b.code == TermReq) {
+			sta, upAfter := false, false
+			for _, x := range acts {
+				if strings.HasPrefix(x, "sta.") {
+					sta, upAfter = true, false
+				}
+				if x == "tlu" {
+					upAfter = true
+				}
+			}
+			if sta && !upAfter && f.State() == Opened {
+				term = "term=BAD"
+			}
+		}
+		out = append(out, ov, alt, term)
 	}
 	if len(out) == 0 {
 		return "empty"
@@ -355,7 +475,7 @@ func TestVerifC05(t *testing.T) {
 		select {
 		case res := <-ch:
 			fmt.Fprintln(w, res)
-		case <-time.After(20 * time.Second):
+		case <-time.After(30 * time.Second):
 			fmt.Fprintln(w, "hang")
 		}
 	}
